@@ -95,10 +95,44 @@ def all_patterns(N):
     return out
 
 
+def book_case(ctx, rng, idx):
+    """Two linked hubs sharing L = 130 ... 300 pairwise neighbours ('book' with L pages), one page also closed by a 3-hyperedge:
+    the order-3 census in closed form - L-1 pairwise triangles, 1 triangle filled by its 3-hyperedge, L(L-1) open two-paths
+    (both hubs), nothing else.  Counts beyond one signed / unsigned byte in every intermediate a counting shortcut might use."""
+    import hypergraphx as hgx
+
+    L = rng.choice([130, 200, 260, 300])
+    ctx.event(f"book-graph:{L}-pages")
+    base = rng.choice([0, 1000])
+    a, b = base, base + 1
+    pages = [base + 10 + 3 * i for i in range(L)]
+    es = [(a, b)] + [(a, p) for p in pages] + [(p, b) for p in pages] + [(b, pages[0], a)]
+    rng.shuffle(es)
+    h = hgx.Hypergraph(es)
+    exp = {canon([(1, 2), (1, 3), (2, 3)], 3): L - 1, canon([(1, 2), (1, 3), (2, 3), (1, 2, 3)], 3): 1, canon([(1, 2), (1, 3)], 3): L * (L - 1)}
+
+    def wit(x=None):
+        return {"book": {"pages": L, "hubs": [a, b]}, "extra": repr(x)[:600]}
+
+    r = call(lib_census, h, 3)
+    if isinstance(r, _Raised):
+        ctx.check("C11:census", False, f"C11:compute_motifs(order=3):raised:{type(r.e).__name__}:book", lambda: wit(r))
+        return
+    got = {}
+    for p_, c_ in r:
+        if c_:
+            k_ = canon(p_, 3)
+            got[k_] = got.get(k_, 0) + c_
+    ctx.check("C11:census", len(r) == 6 and got == exp, "C11:order3:census-differs-from-closed-form:book", lambda: wit({"got": sorted(got.items()), "expected": sorted(exp.items())}))
+    ctx.distinct_add(("book", L, base))
+
+
 def run_case(ctx, rng, idx):
     nr = N_RANDOM[ctx.tier]
     if idx >= nr:
         return pattern_case(ctx, rng, idx - nr)
+    if idx in (2, 12) or (ctx.tier == "thorough" and idx % 500 == 22):
+        return book_case(ctx, rng, idx)
     m = idx % 10
     if m <= 6:
         undirected_case(ctx, rng, idx, 3 if m <= 4 else 4)
